@@ -6,6 +6,7 @@ import (
 	"go/token"
 	"go/types"
 	"regexp"
+	"sort"
 	"strings"
 
 	"verif/checker/internal/orderdom"
@@ -454,23 +455,105 @@ func init() {
 			if !okStep {
 				r.Fail(s.Name()+":step-back", s.Decl.Pos(), nil, "on an inexact match Search must start from the preceding sample (foundIndex--): starting at the following sample skips the bracket that contains the key")
 			}
-			// start = offsets[found], end = offsets[found+1] or MaxInt64 when last
-			var startIdx, endIdx string
+			// start = offsets[found], end = offsets[found+1] or MaxInt64 when found is the last sample —
+			// decided on values, whatever the locals are called and however the two cases are spelled
+			var found types.Object
 			inspect(s.Decl.Body, func(nd ast.Node) bool {
-				if as, ok := nd.(*ast.AssignStmt); ok && len(as.Lhs) == 1 && len(as.Rhs) == 1 {
-					if ix, ok := ast.Unparen(stripConv(si, as.Rhs[0])).(*ast.IndexExpr); ok && prog.SelField(si, ix.X) == offsets {
-						name := types.ExprString(as.Lhs[0])
-						if strings.HasPrefix(strings.ToLower(name), "start") {
-							startIdx = types.ExprString(ix.Index)
-						} else {
-							endIdx = types.ExprString(ix.Index)
+				if as, ok := nd.(*ast.AssignStmt); ok && len(as.Lhs) == 2 && len(as.Rhs) == 1 {
+					if _, ok := isCallToNamed(si, as.Rhs[0], "slices", "BinarySearchFunc"); ok {
+						found = prog.IdentObj(si, as.Lhs[0])
+					}
+				}
+				return true
+			})
+			// all values a result expression can take: itself, or every right-hand side assigned to the local it names
+			valuesOf := func(e ast.Expr) []ast.Expr {
+				e = ast.Unparen(e)
+				id, ok := e.(*ast.Ident)
+				if !ok {
+					return []ast.Expr{e}
+				}
+				obj := si.Uses[id]
+				var vals []ast.Expr
+				ast.Inspect(s.Decl.Body, func(nd ast.Node) bool {
+					switch x := nd.(type) {
+					case *ast.AssignStmt:
+						for i, l := range x.Lhs {
+							if prog.IdentObj(si, l) == obj && len(x.Lhs) == len(x.Rhs) {
+								vals = append(vals, x.Rhs[i])
+							}
+						}
+					case *ast.ValueSpec:
+						for i, n := range x.Names {
+							if si.Defs[n] == obj && i < len(x.Values) {
+								vals = append(vals, x.Values[i])
+							}
+						}
+					}
+					return true
+				})
+				if len(vals) == 0 {
+					return []ast.Expr{e}
+				}
+				return vals
+			}
+			classify := func(e ast.Expr) string {
+				e = stripConv(si, e)
+				if tv, ok := si.Types[e]; ok && tv.Value != nil {
+					if tv.Value.String() == "9223372036854775807" {
+						return "max"
+					}
+					return "const:" + tv.Value.String()
+				}
+				if ix, ok := ast.Unparen(e).(*ast.IndexExpr); ok && prog.SelField(si, ix.X) == offsets && found != nil {
+					if l, ok := linearOf(si, nil, ix.Index); ok && l[found.Name()] == 1 && len(l) <= 2 {
+						return "offsets[found" + map[int]string{0: "", 1: "+1", -1: "-1"}[l[""]] + "]"
+					}
+				}
+				return "?" + types.ExprString(e)
+			}
+			starts, ends := map[string]bool{}, map[string]bool{}
+			nRet := 0
+			inspect(s.Decl.Body, func(nd ast.Node) bool {
+				if _, isLit := nd.(*ast.FuncLit); isLit {
+					return false
+				}
+				ret, ok := nd.(*ast.ReturnStmt)
+				if !ok || len(ret.Results) != 3 {
+					return true
+				}
+				if tv, ok := si.Types[ret.Results[2]]; !ok || !tv.IsNil() {
+					return true // error return
+				}
+				// the "no index at all" case scans everything
+				if classify(ret.Results[0]) == "const:0" && classify(ret.Results[1]) == "max" {
+					return true
+				}
+				nRet++
+				for _, v := range valuesOf(ret.Results[0]) {
+					starts[classify(v)] = true
+				}
+				for _, v := range valuesOf(ret.Results[1]) {
+					ends[classify(v)] = true
+				}
+				return true
+			})
+			okStart := len(starts) == 1 && starts["offsets[found]"]
+			okEnd := len(ends) == 2 && ends["offsets[found+1]"] && ends["max"]
+			// the last-sample test guards the unbounded end
+			okGuard := false
+			inspect(s.Decl.Body, func(nd ast.Node) bool {
+				if is, ok := nd.(*ast.IfStmt); ok {
+					if b, ok := ast.Unparen(is.Cond).(*ast.BinaryExpr); ok && (b.Op == token.EQL || b.Op == token.GEQ) && found != nil && prog.IdentObj(si, b.X) == found {
+						if l, ok := linearOf(si, nil, b.Y); ok && l[""] == -1 && len(l) == 2 {
+							okGuard = true
 						}
 					}
 				}
 				return true
 			})
-			if startIdx != "foundIndex" || endIdx != "foundIndex + 1" {
-				r.Fail(s.Name()+":bracket", s.Decl.Pos(), nil, "the scan bracket must be [offsets[foundIndex], offsets[foundIndex+1]) (found start index %q, end index %q)", startIdx, endIdx)
+			if found == nil || nRet == 0 || !okStart || !okEnd || !okGuard {
+				r.Fail(s.Name()+":bracket", s.Decl.Pos(), nil, "the scan bracket must be [offsets[found], offsets[found+1]) and unbounded exactly when found is the last sample (start values %v, end values %v, last-sample test %v)", keysOf(starts), keysOf(ends), okGuard)
 			}
 			// Table.Get: cur.Move(start); for cur.Offset() < end
 			tg := r.P.Func("dkv/sst", "(*Table).Get")
@@ -652,4 +735,13 @@ func exprMentionsParam(info *types.Info, f *prog.FuncInfo, e ast.Node, idx int) 
 		return true
 	})
 	return found
+}
+
+func keysOf(m map[string]bool) []string {
+	var l []string
+	for k := range m {
+		l = append(l, k)
+	}
+	sort.Strings(l)
+	return l
 }
